@@ -71,6 +71,10 @@ def check_entry(entry, resp, cs, doc):
         out.append("%s error class but errors is %r" % (entry["cls"], resp.get("errors")))
     if cs.calls:
         out.append("%s error class but resolvers ran: %s" % (entry["cls"], [list(c[0]) for c in cs.calls]))
+    if entry["cls"] in ("syntax", "opselect") and isinstance(resp.get("errors"), list):
+        # nothing past parsing / operation selection happens: no variable is coerced (no custom scalar code runs, no variable error is reported)
+        if len(resp["errors"]) != 1:
+            out.append("%s error class answered %d errors: %r" % (entry["cls"], len(resp["errors"]), [e.get("message") for e in resp["errors"] if isinstance(e, dict)]))
     return out
 
 
